@@ -265,7 +265,13 @@ def results_alias(ctx: Ctx):
                                  f'`{src(w.node)[:60]}` rebinds {fld}: the dict registered in the fork memory (and seen by forked children) is no longer '
                                  'the one the parent stores results into')
     if n == 0:
-        raise AnalysisError(f'{fld} is never initialised in ProcessRunner.__init__')
+        shared = [c for c in ctx.P.subclasses(pr.qualname) if fld in c.consts]
+        if not shared:
+            raise AnalysisError(f'{fld} is never initialised in ProcessRunner.__init__')
+        for c in shared:
+            yield ctx.ob('C02.ALIAS', False, None, None, f'{fld} created per runner in __init__',
+                         f'{c.name}.{fld} = {src(c.consts[fld])[:30]} is a class attribute: every runner of the process shares one results map, so results '
+                         'left behind by an aborted run are read as dependency results by the next run', construct=f'{c.name}.{fld}', path=c.module.path)
 
 
 # ----------------------------------------------------------------------------------------
